@@ -306,6 +306,22 @@ class Transformer(ast.NodeTransformer):
             return ast.copy_location(_call("not_", node.operand), node)
         return node
 
+    def visit_Call(self, node):
+        self.generic_visit(node)
+        f = node.func
+        if isinstance(f, ast.Attribute) and f.attr == "join" and len(node.args) == 1 and not node.keywords:
+            return ast.copy_location(_call("join", f.value, node.args[0]), node)
+        return node
+
+    def visit_IfExp(self, node):
+        self.generic_visit(node)
+
+        def thunk(e):
+            return ast.Lambda(args=ast.arguments(posonlyargs=[], args=[], kwonlyargs=[], kw_defaults=[],
+                                                 defaults=[]), body=e)
+
+        return ast.copy_location(_call("ite", node.test, thunk(node.body), thunk(node.orelse)), node)
+
     def visit_JoinedStr(self, node):
         self.generic_visit(node)
         parts = []
@@ -337,8 +353,9 @@ class Transformer(ast.NodeTransformer):
         self.generic_visit(node)
         return ast.copy_location(_call("mkset", ast.List(elts=node.elts, ctx=ast.Load())), node)
 
-    def _comp(self, node, kind, elt):
+    def _comp(self, node, kind, elt_of):
         self.generic_visit(node)
+        elt = elt_of(node)
         if len(node.generators) != 1 or node.generators[0].is_async:
             return node  # nested generators run natively (concrete iterables only)
         g = node.generators[0]
@@ -371,16 +388,16 @@ class Transformer(ast.NodeTransformer):
         return ast.copy_location(_call("comp", _const(kind), f, g.iter, c), node)
 
     def visit_ListComp(self, node):
-        return self._comp(node, "list", node.elt)
+        return self._comp(node, "list", lambda n: n.elt)
 
     def visit_SetComp(self, node):
-        return self._comp(node, "set", node.elt)
+        return self._comp(node, "set", lambda n: n.elt)
 
     def visit_GeneratorExp(self, node):
-        return self._comp(node, "gen", node.elt)
+        return self._comp(node, "gen", lambda n: n.elt)
 
     def visit_DictComp(self, node):
-        return self._comp(node, "dict", ast.Tuple(elts=[node.key, node.value], ctx=ast.Load()))
+        return self._comp(node, "dict", lambda n: ast.Tuple(elts=[n.key, n.value], ctx=ast.Load()))
 
     # -- loops
     def _havoc_stmts(self, ctl, names):
